@@ -985,6 +985,27 @@ func corrC03(c *corrCtx) {
 					map[string]interface{}{"space": s.name, "c": p, "e": e, "FromXYZ(c)": b, "FromXYZ(2^e*c)": bs})
 			}
 		}
+		// the smallest magnitudes: float32 subnormals and the first normals (a value that underflowed upstream).  The
+		// result must be a finite colour no larger than the matrix allows — never NaN or infinity
+		for k := 0; k < 120; k++ {
+			e := r.pick(-126, -127, -128, -129, -130, -135, -140, -148, -149)
+			sc := float32(math.Ldexp(1, e))
+			p := [3]float32{sc * float32(r.intn(7)-3), sc * float32(r.intn(7)-3), sc * float32(1+r.intn(3))}
+			mx := math.Max(math.Abs(float64(p[0])), math.Max(math.Abs(float64(p[1])), math.Abs(float64(p[2]))))
+			x := s.toXYZ(p)
+			b := s.fromXYZ(ciexyz.Color{X: p[0], Y: p[1], Z: p[2]})
+			ok := func(v float32) bool { return finite32(v) && math.Abs(float64(v)) <= 16*mx+1e-44 }
+			c.stats["xyz/tiny"]++
+			if !ok(x.X) || !ok(x.Y) || !ok(x.Z) {
+				c.direct(fmt.Sprintf("C03/tiny-to/%s/%08x%08x%08x", s.name, fb(p[0]), fb(p[1]), fb(p[2])), "ToXYZ of a colour with subnormal-size components is not a finite colour of that size",
+					map[string]interface{}{"space": s.name, "in_bits": []string{fmt.Sprintf("%08x", fb(p[0])), fmt.Sprintf("%08x", fb(p[1])), fmt.Sprintf("%08x", fb(p[2]))}, "out": fmt.Sprint(x)})
+			}
+			if !ok(b[0]) || !ok(b[1]) || !ok(b[2]) {
+				c.direct(fmt.Sprintf("C03/tiny-from/%s/%08x%08x%08x", s.name, fb(p[0]), fb(p[1]), fb(p[2])), "ColorFromXYZ of a colour with subnormal-size components is not a finite colour of that size",
+					map[string]interface{}{"space": s.name, "in_bits": []string{fmt.Sprintf("%08x", fb(p[0])), fmt.Sprintf("%08x", fb(p[1])), fmt.Sprintf("%08x", fb(p[2]))}, "out": fmt.Sprint(b)})
+			}
+			c.emit("xyz/tiny", fmt.Sprintf("col %s fromxyz %08x %08x %08x 0", s.name, fb(p[0]), fb(p[1]), fb(p[2])), fmt.Sprintf("%08x %08x %08x", fb(b[0]), fb(b[1]), fb(b[2])))
+		}
 		// histories: each conversion right after one of a colour sharing two, one or no components with
 		// it (and with components equal to each other) — the result may depend on the argument only
 		nh := 1500
